@@ -4,7 +4,9 @@ import os
 import time
 
 VERIF = os.path.dirname(os.path.dirname(os.path.abspath(__file__)))
-EVIDENCE = os.path.join(VERIF, "evidence")
+# VERIF_EVIDENCE is only used by the checker self-tests (tools/selftest.py) so that runs against scratch
+# mutants do not overwrite the evidence of /repo.
+EVIDENCE = os.environ.get("VERIF_EVIDENCE", os.path.join(VERIF, "evidence"))
 REPLAY = os.path.join(EVIDENCE, "replay")
 KNOWN = os.path.join(VERIF, "known_findings.json")
 
